@@ -49,6 +49,8 @@ func c07Shared(ap corpusApp, cfgi int, ha, hb []string, lag int, c *mc.Ctx) (sig
 		cf := cfg
 		cf.SessionId = sid
 		s := app.NewSession(ap.Build(), cf, app.Persisted)
+		// (always Finish: a client that skips Finish after an error leaves the shared persister holding that
+		// session, and the next NEW session is then created from it - the arrangement is not claimed to work)
 		s.FinishOnError = true
 		if shared {
 			s.Open = open
